@@ -685,6 +685,9 @@ def tpo_order(rep, ex: Explorer):
                 rep.violation("TPO.order", site, slot, "every total preorder is converted", extracted=f"{p.outcome[0]} {p.outcome[1]!r}"[:80], required="return", function=site)
                 continue
             d = p.state.heap.get(p.outcome[1].oid) if isinstance(p.outcome[1], Ref) else None
+            if isinstance(p.outcome[1], Const):
+                rep.violation("TPO.order", site, slot, "the result is a mapping from worlds to ranks for every total preorder (an empty one included)", extracted=repr(p.outcome[1]), required="a mapping", function=site)
+                continue
             if not (isinstance(d, HDict) and not d.each and not d.sym):
                 raise AnalysisError(f"{site}: result is not a mapping the analysis can read: {p.outcome[1]!r}")
             want = {w: ("call", "rankfn", (("c", i),)) for i, L in enumerate(tpo) for w in L}
@@ -945,6 +948,8 @@ def zrank_init(rep, ex: Explorer, cls=ZP):
                                   "the diagnostics are those of the caller's base in this mode with these facts, fed with the partition just computed under its own name",
                                   extracted=f"own base={own}, extended={b_.get('extended')!r}, uses_facts={b_.get('uses_facts')!r}, facts={b_.get('facts')!r}, precomputed keys={list(pd.entries) if isinstance(pd, HDict) else None}"[:220],
                                   required=f"base, extended={bool(want_mode)}, uses_facts={bool(with_facts)}", function=site)
+                if not (isinstance(c.bbdesc, tuple) and len(c.bbdesc) >= 3):
+                    raise AnalysisError(f"{site}: the base handed to the partition test is not a belief base the analysis can read: {c.bbdesc!r}"[:200])
                 ents, each = c.bbdesc[1], c.bbdesc[2]
                 base_each = [e for e in each if e[0] == KEYS_D]
                 fact_each = [e for e in each if e[0] != KEYS_D]
